@@ -145,6 +145,34 @@ def build(tier, seed):
                        "new_page and pageby_row symbolic" % (n, list(hv)),
                 what="per page: group headings emitted at the top and at in-page boundaries + data lines <= available rows "
                      "(single-row pages excepted)"))
+    # O3b: two nested page_by levels (one spanning row is rendered per level)
+    for n in ((2, 3) if quick else (2, 3, 4)):
+        ks = ", ".join("k%d: str, m%d: str" % (i, i) for i in range(n))
+        obs.append(Ob(
+            oid="O3.headings2.n%d" % n, sig=ks + ", nrow: int, add: int, new_page: bool, first_row: bool",
+            pre=["len(k%d) == 1 and len(m%d) == 1" % (i, i) for i in range(n)] + ["nrow >= 1", "add >= 0"], header=HDR, timeout=T,
+            body=r'''
+    K = [%s]
+    M = [%s]
+    H = [1] * %d
+    rows, pages = chain({"g": K, "h": M}, ["g", "h"], H, nrow, add, new_page, "first_row" if first_row else "column")
+    avail = nrow - add
+    if avail < 1:
+        avail = 1
+    for toks in pages:
+        data = [t for t in toks if t[0] == "ROW"]
+        spans = [t for t in toks if t[0] == "SPAN"]
+        if len(data) > 1 and len(spans) + len(data) > avail:
+            return False
+    return True
+''' % (", ".join("k%d" % i for i in range(n)), ", ".join("m%d" % i for i in range(n)), n),
+            funcs=F_META + ["rtflite.pagination.strategies.grouping:PageByStrategy._get_group_headers",
+                            "rtflite.pagination.strategies.grouping:PageByStrategy._detect_group_boundaries",
+                            "rtflite.encoding.renderer:PageRenderer.render", "rtflite.encoding.renderer:PageRenderer._render_body"],
+            stubs=["data frame -> FakeFrame", "get_string_width -> constant", "paginate() glue mirrored in the harness", "services -> role tokens"],
+            bounds="%d one-line rows, TWO nested page_by levels with symbolic one-character keys, nrow/reserved unbounded, new_page and "
+                   "pageby_row symbolic" % n,
+            what="with nested page_by every level's heading row (at the top of a page and at in-page boundaries) is inside the budget"))
     # O4: the line estimate uses each cell's own font and size
     obs.append(Ob(
         oid="O4.font_of_estimate", sig="f0: int, f1: int, z0: int, z1: int, perrow: bool",
